@@ -5,6 +5,11 @@ from harness import enc, gen
 from harness.timebase import TB, REGIMES
 
 PROP = "C15"
+# the binary64 theorems (Properties/C15.v, module Binary64) use the standard library's real numbers
+AXIOM_WHITELIST = ["sig_not_dec", "sig_forall_dec", "functional_extensionality_dep", "classic"]
+TRUSTED = ["C15 module Binary64: Coq standard-library axioms of the real numbers (ClassicalDedekindReals.sig_not_dec, sig_forall_dec), "
+           "FunctionalExtensionality.functional_extensionality_dep, Classical_Prop.classic, through Reals and Flocq 4; "
+           "IEEE-754 binary64 arithmetic modelled by Flocq's round on the reals"]
 CHECK_MODULE = "Check.C15"
 COQ_IMPORTS = "Model.Window"
 SHARD = 300
